@@ -223,7 +223,7 @@ def classify_call(prog, f, c):
             return True, "index guarded by a dominating length check on the same collection"
         if idx is not None and "p" in idx:
             dep, calls, _ = f.depends_on(idx["p"][0])
-            if any(x.name in ("position", "rposition", "binary_search", "iter_position") for x in calls):
+            if any(x.name in ("position", "rposition", "binary_search", "iter_position") for x in calls) or _position_through_closures(prog, f, idx["p"][0]):
                 return True, "index obtained from position() on the collection"
             if any(x.name == "min" for x in calls) and any(x.name == "len" for x in calls):
                 return True, "bounds clamped with min(.., len)"
@@ -232,7 +232,7 @@ def classify_call(prog, f, c):
         idx = c.args[1] if len(c.args) > 1 else None
         if idx is not None and "p" in idx:
             dep, calls, _ = f.depends_on(idx["p"][0])
-            if any(x.name in ("position", "rposition") for x in calls):
+            if any(x.name in ("position", "rposition") for x in calls) or _position_through_closures(prog, f, idx["p"][0]):
                 return True, "index obtained from position() on the collection"
         if c.name in ("drain",):
             return False, None
@@ -263,6 +263,13 @@ def classify_call(prog, f, c):
             return False, None   # fallible from_slice constructors return Result
         return True, None
     return False, None
+
+
+def _position_through_closures(prog, f, local):
+    """the index is what a closure of this function found with position() (`map.get_mut(id).and_then(|q| { let i = q.iter().position(..)?; Some((q, i)) })`)"""
+    scope = set(g.path for g in prog.family(prog.fns.get(f.root, f)))
+    og = A.origins(prog, f, local, scope=scope, max_frames=2)
+    return og.has_call(lambda x: x.name in ("position", "rposition") and x.krate in ("core", "alloc", "std"))
 
 
 def filter_guaranteed_len(prog, cl, coll):
